@@ -7,6 +7,7 @@ input, its `last_buffer` stays complete valid, and its UTF-8 prologue never fail
 -/
 import RioModel.Proofs.FilterChain
 import RioModel.Proofs.FilterUtf8
+import RioModel.Proofs.FilterTotal
 set_option linter.unusedSimpArgs false
 set_option linter.unusedVariables false
 
@@ -52,6 +53,7 @@ section
 variable {tk : Tokenize} (hl : Lossless tk) (hv : TokValid tk) (ev : Bytes → Bytes → Bool)
 include hl hv
 
+omit hl hv in
 theorem appendChildGo_V (child : Bytes) (hc : V child) : ∀ (ts : List Tok) (rest : Bytes) (level : Int) (out r : Bytes),
     (∀ t ∈ ts, V t.raw) → V rest → V out → appendChildGo child ts rest level out = some r → V r := by
   intro ts
@@ -82,8 +84,9 @@ theorem appendChild_V (content child : Bytes) (h1 : V content) (h2 : V child) : 
   | none => simpa [hg] using h1
   | some r =>
     simp only [hg, Option.getD_some]
-    exact appendChildGo_V hl hv child h2 _ _ _ _ _ (hv content h1) (V_rest hl hv h1) V_nil hg
+    exact appendChildGo_V child h2 _ _ _ _ _ (hv content h1) (V_rest hl hv h1) V_nil hg
 
+omit hl hv in
 theorem prependChildGo_V (child : Bytes) (hc : V child) : ∀ (ts : List Tok) (rest out r : Bytes),
     (∀ t ∈ ts, V t.raw) → V rest → V out → prependChildGo child ts rest out = some r → V r := by
   intro ts
@@ -106,7 +109,7 @@ theorem prependChild_V (content child : Bytes) (h1 : V content) (h2 : V child) :
   | none => simpa [hg] using h1
   | some r =>
     simp only [hg, Option.getD_some]
-    exact prependChildGo_V hl hv child h2 _ _ _ _ (hv content h1) (V_rest hl hv h1) V_nil hg
+    exact prependChildGo_V child h2 _ _ _ _ (hv content h1) (V_rest hl hv h1) V_nil hg
 
 theorem Visitor.leave_V (v : Visitor) (d : Bytes) (hc : V v.content) (hd : V d) :
     V (v.leave tk ev d).1.2.2 ∧ (v.leave tk ev d).2.content = v.content := by
